@@ -102,10 +102,15 @@ func specJSONSpace(c byte) bool { return c == ' ' || c == '\t' || c == '\n' || c
 //@   props C25
 //@   panics allowed
 
+// "If s is longer than n runes, the abbreviated string terminates with ..." -
+// so a string (after the documented trimming of trailing white space) of at
+// most n runes comes back as it is.
 //@ func Abbreviate
 //@   props C25
+//@   ensures utf8.RuneCountInString(strings.TrimRight(old(s), " \n\r\t\f")) <= n ==> result == strings.TrimRight(old(s), " \n\r\t\f")
 //@   loop 0
 //@     invariant 0 <= n2 && n2 <= len(s)
+//@     invariant p == utf8.RuneCountInString(s[:i])
 
 //@ func Base64
 //@   props C25
